@@ -300,6 +300,26 @@ pub mod onion {
 		onion_utils::verif::shared_secrets(secp_ctx, path, session_priv)
 	}
 
+	/// `blinded_path::utils::construct_blinded_hops` over RAW encrypted-recipient-data TLV streams
+	/// (one `(node_id, tlv stream bytes)` per forwarding hop, no receive-auth key): lets a caller
+	/// build forwarding data that LDK reads but never writes (`next_blinding_override`, TLV 8 —
+	/// blinded paths concatenated by another implementation). Read-only, changes nothing.
+	pub fn blinded_hops_raw<T: secp256k1::Signing + secp256k1::Verification>(
+		secp_ctx: &Secp256k1<T>, hops: &[(secp256k1::PublicKey, Vec<u8>)], session_priv: &SecretKey,
+	) -> Vec<crate::blinded_path::BlindedHop> {
+		struct Raw<'a>(&'a [u8]);
+		impl<'a> crate::util::ser::Writeable for Raw<'a> {
+			fn write<W: crate::util::ser::Writer>(&self, w: &mut W) -> Result<(), crate::io::Error> {
+				w.write_all(self.0)
+			}
+		}
+		crate::blinded_path::utils::construct_blinded_hops(
+			secp_ctx,
+			hops.iter().map(|(pk, tlvs)| ((*pk, None), Raw(&tlvs[..]))),
+			session_priv,
+		)
+	}
+
 	/// Serialized hop payloads, first-hop amount and cltv of `build_onion_payloads`.
 	pub fn payloads(
 		path: &Path, recipient_onion: &RecipientOnionFields, cur_block_height: u32,
